@@ -39,6 +39,11 @@ CHECKS = {
     text="Generated VCFs (ploidy 2-4, PS or HP, missing/partial calls, interleaved and nested sets, several chromosomes, multi-ALT and duplicate records) are given to run_stats with drawn options; every count of the TSV, the block list and the identities of the statement are recomputed from the generating model, never by re-parsing the file.",
     note="Trusted: the counting rules written down in props/c12_stats.py (reader's documented skipping rule; het = complete GT with >= 2 distinct alleles); one phase encoding per file (mixed encodings are rejected by the reader by design).",
     ref="DESIGN.md section 4, C12"),
+ "C11": dict(
+    technique="property-based testing (Hypothesis): generated pairs/triples of phasings vs. brute-force definitions per intersection block, plus a metamorphic haplotype-relabelling relation",
+    text="Pairs and triples of phased VCFs over common variants (ploidy 2-4, PS/HP, random block structures, multi-allelic sites, absent and unphased variants) are compared by run_compare; every TSV number, BED record, longest-block agreement and multiway count is recomputed from the generating model with brute-force definitions (orientation sequences, minima over permutation sequences); relabelling the haplotypes of any phase set must not change any output.",
+    note="Trusted: the brute-force definitions in vlib/oracles.py; for ploidy >= 3 only the total switch+flip cost is compared; diploid switch counts are judged only on blocks whose genotypes agree (otherwise the notion is undefined).",
+    ref="DESIGN.md section 4, C11"),
 }
 
 NOT_YET = {}
